@@ -1,5 +1,5 @@
 ------------------------------ MODULE MC_C14 ------------------------------
-(* C14 generators: member-level sequences (Mode = "member") and trait-level sequences (Mode = "trait"), with the theorem that the
+(* C14 generators: member-level sequences (Mode = "member": struct fields; "variant": enum variants, same fold, other instruction categories) and trait-level sequences (Mode = "trait"), with the theorem that the
    fold as implemented refines the declarative requirement checked on every sequence. *)
 EXTENDS O2ORepeat, TLC, Json
 CONSTANTS Mode, MaxLen, RepChoices, TNames, OwnChoices
@@ -13,7 +13,7 @@ AddV(nv, o, r, cs, pm, st, sk) == /\ Len(s) < MaxLen /\ (~r => cs = {} /\ ~pm) /
                                   /\ s' = Append(s, [v |-> (IF s = <<>> THEN 1 ELSE s[Len(s)].v + (IF nv THEN 1 ELSE 0)), own |-> o, rep |-> r, cats |-> cs, perm |-> pm, stop |-> st, skip |-> sk])
 Next == IF Mode = "vfield"
         THEN \E nv \in BOOLEAN, o \in OwnChoices, r \in BOOLEAN, cs \in RepChoices, pm \in BOOLEAN, st \in BOOLEAN, sk \in BOOLEAN : AddV(nv, o, r, cs, pm, st, sk)
-        ELSE IF Mode = "member"
+        ELSE IF Mode \in {"member", "variant"}
         THEN \E o \in OwnChoices, r \in BOOLEAN, cs \in RepChoices, st \in BOOLEAN, sk \in BOOLEAN : AddM(o, r, cs, st, sk)
         ELSE \E n \in TNames, o \in OwnChoices, r \in BOOLEAN, cs \in RepChoices, st \in BOOLEAN, sk \in BOOLEAN : AddT(n, o, r, cs, st, sk)
 Spec == Init /\ [][Next]_s
@@ -21,6 +21,6 @@ Pairs(S) == {[c |-> x[1], t |-> x[2]] : x \in S}
 EmitM == PrintT(<<"CASE", ToJson([ms |-> s, conflict |-> Conflict(s), eff |-> [j \in DOMAIN s |-> Pairs(Eff(s, j))]])>>)
 EmitT == PrintT(<<"CASE", ToJson([ts |-> s, conflict |-> TConflict(s), eff |-> [j \in DOMAIN s |-> Pairs(TEff(s, j))]])>>)
 EmitV == PrintT(<<"CASE", ToJson([fs |-> s, conflict |-> VConflict(s), eff |-> [j \in DOMAIN s |-> Pairs(VEff(s, j))]])>>)
-Emit == s # <<>> => IF Mode = "member" THEN EmitM ELSE IF Mode = "vfield" THEN EmitV ELSE EmitT
-FoldOk == IF Mode = "member" THEN FoldRefinesRequirement(s) ELSE IF Mode = "vfield" THEN VFoldRefinesRequirement(s) ELSE TFoldRefinesRequirement(s, TNames)
+Emit == s # <<>> => IF Mode \in {"member", "variant"} THEN EmitM ELSE IF Mode = "vfield" THEN EmitV ELSE EmitT
+FoldOk == IF Mode \in {"member", "variant"} THEN FoldRefinesRequirement(s) ELSE IF Mode = "vfield" THEN VFoldRefinesRequirement(s) ELSE TFoldRefinesRequirement(s, TNames)
 =============================================================================
